@@ -129,6 +129,21 @@ def compute_attractor_candidates(
         # is not a subset of one of its children. In such case, we can use this intersection
         # to further simplify the attractor detection process.
         total_skip_nodes_applied = 0
+
+        # An empty result for `n` only says that every attractor of `n` is reported
+        # by some node below `n`. That node can be another skip node which defers
+        # (through this very rule) back to `node`, and then nobody reports the attractor.
+        # To keep such chains acyclic, the node with the higher ID always wins: `node`
+        # does not rely on `n` if `n` contains an older skip node (or a stub, which can
+        # still become a skip node) that overlaps with `node`.
+        older_overlapping_spaces = [
+            s_data["space"]
+            for s, s_data in ((s, sd.node_data(s)) for s in sd.node_ids())
+            if s < node_id
+            and (s_data["skipped"] or not s_data["expanded"])
+            and intersect(node_space, s_data["space"]) is not None
+        ]
+
         for n in sd.node_ids():
             n_data = sd.node_data(n)
             if is_subspace(node_space, n_data["space"]):
@@ -140,6 +155,11 @@ def compute_attractor_candidates(
                 # solved separately), but the nodes themselves do not depend on each other.
                 continue
             if n_data["attractor_candidates"] == [] or n_data["attractor_seeds"] == []:
+                if any(
+                    is_subspace(s_space, n_data["space"])
+                    for s_space in older_overlapping_spaces
+                ):
+                    continue
                 # This will create a lot of duplicates, but it seems to be better than
                 # not doing it at all.
                 common_subspace = intersect(node_space, n_data["space"])
